@@ -10,51 +10,10 @@ import c01_gen as G
 import lib
 
 
-class Outside(Exception):
-    pass
-
-
-def ty_of(e):
-    t = G.ty_of_expr(e)
-    if t is None:
-        raise Outside(f'type {e}')
-    return t
-
-
-def instr_of(m):
-    if isinstance(m, list):
-        return ('SEQ', [instr_of(x) for x in m])
-    p, args = m.get('prim'), m.get('args', [])
-    if p in G.NULLARY and not args:
-        return (p,)
-    if p in ('DROP', 'DUP') and len(args) <= 1:
-        return (p, int(args[0]['int']) if args else 1)
-    if p in ('DIG', 'DUG') and len(args) == 1:
-        return (p, int(args[0]['int']))
-    if p in ('PAIR', 'UNPAIR', 'GET', 'UPDATE') and len(args) == 1 and 'int' in args[0]:
-        return (p + 'N', int(args[0]['int']))
-    if p == 'PUSH' and len(args) == 2:
-        t = ty_of(args[0])
-        try:
-            return ('PUSH', t, G.data_of_micheline(t, args[1]))
-        except G.Unrenderable as e:
-            raise Outside(str(e)) from e
-    if p == 'DIP':
-        if len(args) == 1:
-            return ('DIP', 1, seq_of(args[0]))
-        return ('DIP', int(args[0]['int']), seq_of(args[1]))
-    if p in ('IF', 'IF_NONE', 'IF_LEFT', 'IF_CONS') and len(args) == 2:
-        return (p, seq_of(args[0]), seq_of(args[1]))
-    if p in ('LOOP', 'LOOP_LEFT', 'ITER', 'MAP') and len(args) == 1:
-        return (p, seq_of(args[0]))
-    if p in ('LEFT', 'RIGHT', 'NONE', 'NIL') and len(args) == 1:
-        return (p, ty_of(args[0]))
-    raise Outside(f'instruction {p}/{len(args)}')
-
-
-def seq_of(m):
-    i = instr_of(m)
-    return i if i[0] == 'SEQ' else ('SEQ', [i])
+Outside = G.Outside
+ty_of = G.ty_of
+instr_of = G.instr_of
+seq_of = G.seq_of
 
 
 def vectors():
